@@ -41,6 +41,7 @@ def static_history(rng, multibyte=False):
             if a not in sim.dims[d]: out.append(f"AT {x(d)} {x(a)} {rng.choice('01')} -"); sim.dims[d].append(a)
     out.append('UPD'); sim.nmpk += 1
     nk = rng.randint(2, 5); ne = rng.randint(3, 8)
+    for _ in range(rng.randint(2, 6)): out.append(f'AP {x(hist.gen_policy(rng, sim, 3, p_bad=0.1))}')
     for _ in range(nk): out.append(f'KG {x(hist.gen_policy(rng, sim, 3, p_bad=0.02))}')
     for _ in range(ne): out.append(f'EN 1 {x(hist.gen_policy(rng, sim, 2, p_bad=0.02))}')
     for k in range(nk):
